@@ -354,6 +354,39 @@ impl ObjectReceiver {
             log::debug!("Set cenc from FDT {:?}", self.cenc);
         }
 
+        // The FDT is the authority (RFC 6726 3.4.2): an OTI / transfer length learned in band (EXT_FTI) that the
+        // File entry contradicts - a forged or stale packet - is discarded together with what was decoded under
+        // its partition. Nothing has been written yet: the object writer only exists once the FDT is attached
+        if self.object_writer.is_none() {
+            if let (Some(oti), Some(fdt_oti)) = (self.oti.as_ref(), fdt.get_oti_for_file(file).as_ref()) {
+                let fdt_transfer_length = file.get_transfer_length();
+                let conflict = oti.fec_encoding_id != fdt_oti.fec_encoding_id
+                    || oti.encoding_symbol_length != fdt_oti.encoding_symbol_length
+                    || self.transfer_length != Some(fdt_transfer_length)
+                    || partition::block_partitioning(
+                        fdt_oti.maximum_source_block_length as u64,
+                        fdt_transfer_length,
+                        fdt_oti.encoding_symbol_length as u64,
+                    ) != (self.a_large, self.a_small, self.nb_a_large, self.nb_blocks);
+                if conflict {
+                    log::warn!(
+                        "TOI {} : the FDT contradicts the FEC OTI / transfer length received in band, restart from the FDT",
+                        self.toi
+                    );
+                    self.oti = None;
+                    self.transfer_length = None;
+                    self.blocks.clear();
+                    self.blocks_offset = 0;
+                    self.nb_allocated_blocks = 0;
+                    self.total_allocated_blocks_size = 0;
+                    self.a_large = 0;
+                    self.a_small = 0;
+                    self.nb_a_large = 0;
+                    self.nb_blocks = 0;
+                }
+            }
+        }
+
         if self.oti.is_none() {
             self.oti = fdt.get_oti_for_file(file);
             if self.oti.is_some() {
